@@ -77,7 +77,7 @@ def conc_corruptions():
         del s["items"][j:]
     # a step after which the newest record is not yet covered by the snapshot
     def has_rec(l):
-        if not step(l):
+        if not step(l) or "disk" not in l["obs"]:
             return False
         b = maxrec(l)
         snap = l["obs"]["disk"]["snap"]
